@@ -386,6 +386,23 @@ func initialPacketBuffered(c *core.Ctx, R string) {
 		}
 		if fromReader && g.GuardedBy(cl.Loc, notBuffer) {
 			ok = true
+			// exactly there: nothing but "configured" and "not a buffer" decides the conversion — any further
+			// condition (an exempted reader type) leaves a reader that only the first session can read
+			also := ""
+			for _, f := range g.Facts() {
+				if !g.EdgeDominates(f.Br.B, f.Edge, cl.Loc) || notBuffer(u, f.Br) != 0 {
+					continue
+				}
+				if cmp, isCmp := u.BranchCmp(f.Br); isCmp && cmp.Y != nil && core.IsNil(info, cmp.Y) {
+					if d, k := u.SingleDef(cmp.X); k {
+						if ce, isC := ast.Unparen(exprOf(d)).(*ast.CallExpr); isC && calleeNameOf(ce) == "InitialPacket" {
+							continue
+						}
+					}
+				}
+				also = core.ExprString(f.Br.Cond)
+			}
+			c.Check(R, "engine.(*baseServer).Construct/every-plain-reader-is-converted", cl.Pos(), also == "", keyf("the conversion also depends on: %s", also))
 		}
 	}
 	// the caller's options get the buffer too: their reader has been consumed, and another server may be built from them (fix bfb1293)
@@ -403,7 +420,7 @@ func initialPacketBuffered(c *core.Ctx, R string) {
 
 // upgradeAttemptConcludedOnce (C08.12 = C19.6 = C03.22 = C12.13) — fixes dbd3d2b, 22efbbe, 55be51f.
 func upgradeAttemptConcludedOnce(c *core.Ctx, R string) {
-	c.Rule(R, "an upgrade attempt ends once: MaybeUpgrade's exit paths (upgrade packet, unexpected packet, error / close of the candidate or the session, timeout) run on different goroutines; conclude() = {lock; finished ⇒ false; finished = true; true} and every one of them proceeds only on its true edge; the probe branch arms the noop interval and records the probe with the same mutex held and only while not finished; the switch needs a recorded probe; after setTransport a closed session tears the new transport down before anything is announced; the discarding Close publishes 'closing' before it closes the (possibly already replaced) transport")
+	c.Rule(R, "an upgrade attempt ends once: MaybeUpgrade's exit paths (upgrade packet, unexpected packet, error / close of the candidate or the session, timeout) run on different goroutines; conclude() = {lock; finished ⇒ false; finished = true; true} and every one of them proceeds only on its true edge; the probe branch arms the noop interval and records the probe with the same mutex held and only while not finished; the switch needs a recorded probe; after setTransport a closed session tears the new transport down before anything is announced; a session already closed when the attempt's close listener is registered ends the attempt at once; the discarding Close publishes 'closing' before it closes the (possibly already replaced) transport")
 	mu := c.Fn(R, sockUpgrade)
 	if mu == nil {
 		return
@@ -529,6 +546,27 @@ func upgradeAttemptConcludedOnce(c *core.Ctx, R string) {
 		c.Check(R, sockUpgrade+"$onPacket/closed-session-re-checked-after-setTransport", op.Pos(), recheck, "Emit(upgrade) only if the session is not closed after the new transport was installed; otherwise clearTransport tears it down")
 		_ = info
 	}
+	// store-then-check against a session that closed before the attempt was listening (fix 28675f8): the server looked
+	// the session up some statements earlier, and a close in between reaches no listener of this attempt
+	{
+		g := mu.Graph()
+		var reg *core.Call
+		for _, cl := range mu.Calls() {
+			if ev, isC := core.ConstString(mu.Info(), cl.Arg(0)); (cl.Name == "Once" || cl.Name == "On") && isC && ev == "close" && emitterClass(cl.RecvTypeName()) == "session" {
+				reg = cl
+			}
+		}
+		ended := false
+		if reg != nil {
+			closedAfter := gAfter(stateIs(sockStateKeys, "closed"), reg.Pos())
+			for _, cl := range mu.Calls() {
+				if cl.Callee == nil && (cl.Name == "onError" || cl.Name == "onClose") && g.Dominates(reg.Loc, cl.Loc) && g.GuardedBy(cl.Loc, closedAfter) {
+					ended = true
+				}
+			}
+		}
+		c.Check(R, sockUpgrade+"/closed-session-re-checked-after-the-close-listener", mu.Pos(), reg != nil && ended, "once the attempt listens for the session's close, a session that is already closed ends it (onError / onClose on the closed edge of a state test that follows the registration) — otherwise the candidate of a closed session answers the probe and the closed session emits 'upgrading'")
+	}
 	if cu := c.Fn(R, sockClose); cu != nil {
 		g := cu.Graph()
 		ok := false
@@ -607,4 +645,10 @@ func discardCompletesBufferedClose(c *core.Ctx, R string) {
 	}
 	run = run && every && only
 	c.Check(R, "transports.(*polling).Discard/base-Discard+run(shouldClose.Swap(nil))", u.Pos(), base && run, keyf("base Discard called: %v; pending close closure taken with Swap(nil) and run: %v", base, run))
+}
+
+// exprOf: a reaching definition as an expression (nil when it is a tuple element or a parameter).
+func exprOf(d any) ast.Expr {
+	e, _ := d.(ast.Expr)
+	return e
 }
